@@ -134,7 +134,8 @@ class RemoteState(dict):
             if patches is not None and name in patches:
                 sub = patches[name]
                 if isinstance(sub, dict):
-                    sub_patches.append(RemoteState._patches_t(it + len(sub_patches), name, sub))
+                    # restored children are written into the frame of their parent - which should not be the caller's own dictionary
+                    sub_patches.append(RemoteState._patches_t(it + len(sub_patches), name, dict(sub)))
                     dummy = False
 
             if dummy:
